@@ -315,6 +315,39 @@ class PathFacts:
 
     def prove_le(self, ta, tb, strict=False):
         """Prove ta <= tb (or <) for terms, by linear forms over at most two atoms."""
+        # min(a, b) <= y follows from a <= y or b <= y;  x <= max(a, b) from x <= a or x <= b;  clamp(v, lo, hi) is within [lo, hi]
+        def _mm(t):
+            t0 = t
+            while isinstance(t0, tuple) and t0 and t0[0] in ('ref', 'deref'):
+                t0 = t0[1]
+            while isinstance(t0, tuple) and t0 and t0[0] == 'cast' and t0[1] == 'IntToInt':
+                t0 = t0[2]
+            if isinstance(t0, tuple) and t0 and t0[0] == 'call' and isinstance(t0[1], str):
+                last = t0[1].rsplit('::', 1)[-1]
+                if last in ('min', 'max') and len(t0[2]) == 2 and ('Ord' in t0[1] or 'cmp::' in t0[1] or 'num::' in t0[1]):
+                    return last, t0[2]
+                if last == 'clamp' and len(t0[2]) == 3:
+                    return 'clamp', t0[2]
+            return None, None
+        if getattr(self, '_mm_depth', 0) < 3:
+            self._mm_depth = getattr(self, '_mm_depth', 0) + 1
+            try:
+                ka, aa = _mm(ta)
+                if ka == 'min' and any(self.prove_le(a_, tb, strict) for a_ in aa):
+                    return True
+                if ka == 'max' and all(self.prove_le(a_, tb, strict) for a_ in aa):
+                    return True
+                if ka == 'clamp' and self.prove_le(aa[2], tb, strict):
+                    return True
+                kb, ab = _mm(tb)
+                if kb == 'max' and any(self.prove_le(ta, b_, strict) for b_ in ab):
+                    return True
+                if kb == 'min' and all(self.prove_le(ta, b_, strict) for b_ in ab):
+                    return True
+                if kb == 'clamp' and self.prove_le(ta, ab[1], strict):
+                    return True
+            finally:
+                self._mm_depth -= 1
         la, lb = lin(ta), lin(tb)
         d = {}
         for x, k in la[0].items():
